@@ -95,13 +95,13 @@ Definition raises (c : string) : option (list exc) :=
   let pure := Some [] in
   match c with
   | "open(file_path)" => Some [EOSError]
-  | "json.load(file_to_be_checked)" => Some [EJSONDecode; EUnicodeDecode; ERecursion]
+  | "json.load(file_to_be_checked)" => Some [EJSONDecode; EUnicodeDecode; ERecursion; EValueError]   (* int digit limit *)
   (* the tool's own schema file, shipped with the package *)
   | "open(JSON_SCHEMA_FILE)" | "json.load(json_file)" => pure
   | "jsonschema.validate" => Some [EValidation]
   | "etree.parse" => Some [EXMLSyntax; EOSError]        (* lxml: undecodable bytes from a file object *)
   | "etree.XMLSchema" | "etree.XMLParser" => pure
-  | "json_deserialization.read_aas_json_file" => Some [EJSONDecode; EUnicodeDecode; ERecursion]
+  | "json_deserialization.read_aas_json_file" => Some [EJSONDecode; EUnicodeDecode; ERecursion; EValueError]
   | "xml_deserialization.read_aas_xml_file" => Some [EOSError]   (* failsafe logs syntax errors; lxml I/O errors pass *)
   | "aasx.AASXReader" => Some [EFileNotFound; EValueError]
   (* damaged zip members surface as BadZipFile / zlib.error / OSError / NotImplementedError (unsupported
